@@ -269,7 +269,14 @@ func (e *Env) expr(x ast.Expr) Val {
 		case *types.Slice:
 			idx := e.intIndex(n.Index)
 			a := &Addr{key: "E:" + shortType(u.Elem()), idxs: []Sx{sx("sl_arr", base.t), it.addNW(sx("sl_off", base.t), idx)}, typ: u.Elem()}
-			return tr.load(e.st, a)
+			v := tr.load(e.st, a)
+			if isStringType(u.Elem()) && e.qdepth == 0 && v.t != "" {
+				// every string value has a length in [0, 2^40]
+				nm := c.define("sld", "Str", v.t)
+				c.axiom(nm, and(it.le(I64, it.iconst(0), sx("slen", nm)), it.le(I64, sx("slen", nm), it.iconst(1<<40))))
+				v.t = nm
+			}
+			return v
 		case *types.Array:
 			idx := e.intIndex(n.Index)
 			if base.addr != nil {
@@ -834,7 +841,14 @@ func (e *Env) prelude(name string, n *ast.CallExpr, typeArgs []types.Type, rt ty
 		}
 	case "bufLen":
 		ln, _ := tr.bufKeys()
-		return Val{t: sx("select", tr.memGet(e.st, ln), arg(0).t), typ: rt}
+		t := sx("select", tr.memGet(e.st, ln), arg(0).t)
+		if e.qdepth == 0 {
+			// the ghost length counts the bytes written so far: never negative
+			n := c.define("buflen", c.it.isort(), t)
+			c.axiom(n, c.it.le(I64, c.it.iconst(0), n))
+			t = n
+		}
+		return Val{t: t, typ: rt}
 	case "bufAt":
 		_, data := tr.bufKeys()
 		return Val{t: sx("select", sx("select", tr.memGet(e.st, data), arg(0).t), e.intIndex(n.Args[1])), typ: rt}
